@@ -265,7 +265,7 @@ fn replay(ctx: &mut Ctx, case: &Value) {
             let name = case.get("name").and_then(|x| x.as_str()).unwrap_or("");
             for (n, f) in other_formats(addr) {
                 if n == name {
-                    let l = vec![hexline(&frames::df11(5, addr, 0)), hexline(&frames::df5(addr, frames::id13_for_squawk(SENTINEL_SQ))), hexline(&f)];
+                    let l = vec![hexline(&frames::df11(5, addr, 0)), hexline(&frames::df17(5, addr, frames::me_tc31(2))), hexline(&frames::df5(addr, frames::id13_for_squawk(SENTINEL_SQ))), hexline(&f)];
                     let got = single(&cfg, addr, l).row().and_then(|s| s.squawk);
                     crate::run::say(&format!("{name} {}: squawk before {SENTINEL_SQ}, after {got:?}", f.hex()));
                     if got != Some(SENTINEL_SQ) {
